@@ -18,26 +18,42 @@ fn in_context<F: FnOnce()>(f: F) {
     } else { f() }
 }
 
+/// third context: the target is ALREADY faked through the same injector (with a replacement of its own type) when the attempt is made:
+/// a refusal must leave that fake in force (entry bytes as they were, nothing unmapped, nothing flushed)
+static PREFAKED: AtomicBool = AtomicBool::new(false);
+static CUR: std::sync::atomic::AtomicUsize = std::sync::atomic::AtomicUsize::new(usize::MAX);
+
 fn attempt<F: FnOnce(&mut InjectorPP)>(taddr: u64, f: F) -> char {
-    let before = util::read16(taddr);
+    let orig = util::read16(taddr);
+    let mut before = orig;
     let mut during = before;
+    let mut syscalls = 0usize;
+    let mut pre_failed = false;
     let mut r: std::thread::Result<()> = Ok(());
-    crate::interpose::reset();
-    crate::interpose::RECORD.store(true, Ordering::SeqCst);
+    let cur = CUR.load(Ordering::SeqCst);
     in_context(|| { r = catch_unwind(AssertUnwindSafe(|| {
         let mut inj = InjectorPP::new();
+        if PREFAKED.load(Ordering::SeqCst) && cur != usize::MAX {
+            let t = &FAMILY[cur];
+            if catch_unwind(AssertUnwindSafe(|| inj.when_called((t.target)()).will_execute_raw((t.fake)()))).is_err() { pre_failed = true; return; }
+            before = util::read16(taddr);
+        }
+        crate::interpose::reset();
+        crate::interpose::RECORD.store(true, Ordering::SeqCst);
         let rr = catch_unwind(AssertUnwindSafe(|| f(&mut inj)));
+        crate::interpose::RECORD.store(false, Ordering::SeqCst);
+        syscalls = crate::interpose::len();        // executable mmap / mprotect / munmap of a trampoline / __clear_cache made on the library's behalf
         during = util::read16(taddr);
         drop(inj);
         if let Err(e) = rr { std::panic::resume_unwind(e) }
     })); });
-    let after = util::read16(taddr);
     crate::interpose::RECORD.store(false, Ordering::SeqCst);
-    let syscalls = crate::interpose::len();        // executable mmap / mprotect / munmap of a trampoline / __clear_cache made on the library's behalf
+    if pre_failed { return 'P'; }
+    let after = util::read16(taddr);
     match r {
-        Ok(()) => if after == before { 'A' } else { 'R' },            // R = accepted but not restored
+        Ok(()) => if after == orig { 'A' } else { 'R' },            // R = accepted but not restored
         Err(e) => {
-            if during != before || after != before || syscalls != 0 { return 'M'; }      // a refusal must come before ANYTHING is done: no byte changed, no mapping made, no page protection touched
+            if during != before || after != orig || syscalls != 0 { return 'M'; }      // a refusal must come before ANYTHING is done: no byte changed, no mapping made, no page protection touched
             match util::classify(&util::panic_msg(&e)) { "sig" => 'S', "null" => 'N', "boolgate" => 'B', _ => 'O' }
         }
     }
@@ -54,11 +70,47 @@ pub fn main(_args: &[String]) {
     all("");
     UNWINDING.store(true, Ordering::SeqCst);
     all("@unwinding");
+    UNWINDING.store(false, Ordering::SeqCst);
+    PREFAKED.store(true, Ordering::SeqCst);
+    all("@prefaked");
+    PREFAKED.store(false, Ordering::SeqCst);
+    generic_sites();
+}
+
+/// func! call sites INSIDE GENERIC FUNCTIONS: one line of source, several instantiations in one process.  Whatever the macro computes at a call
+/// site (the signature text) must be that of the instantiation being executed, in whatever order the instantiations run.
+#[inline(never)] fn produce<T: Default + 'static>() -> T { std::hint::black_box(T::default()) }
+fn force_generic<T: Default + 'static>() -> char {
+    CUR.store(usize::MAX, Ordering::SeqCst);
+    attempt(produce::<T> as usize as u64, |inj| inj.when_called(injectorpp::func!(fn (produce::<T>)() -> T)).will_return_boolean(true))
+}
+fn force_generic_2<T: Default + 'static>() -> char {
+    CUR.store(usize::MAX, Ordering::SeqCst);
+    attempt(produce::<T> as usize as u64, |inj| inj.when_called(injectorpp::func!(fn (produce::<T>)() -> T)).will_return_boolean(false))
+}
+fn fake_u64() -> u64 { 77 }
+fn replace_generic<T: Default + 'static>() -> char {
+    CUR.store(usize::MAX, Ordering::SeqCst);
+    attempt(produce::<T> as usize as u64, |inj| inj.when_called(injectorpp::func!(fn (produce::<T>)() -> T)).will_execute_raw(injectorpp::func!(fn (fake_u64)() -> u64)))
+}
+fn replace_generic_2<T: Default + 'static>() -> char {
+    CUR.store(usize::MAX, Ordering::SeqCst);
+    attempt(produce::<T> as usize as u64, |inj| inj.when_called(injectorpp::func!(fn (produce::<T>)() -> T)).will_execute_raw(injectorpp::func!(fn (fake_u64)() -> u64)))
+}
+fn generic_sites() {
+    // instantiation order: bool, u64, u8, bool, String, u64   /   the other call site: u64, bool, i8, bool
+    let a: String = [force_generic::<bool>(), force_generic::<u64>(), force_generic::<u8>(), force_generic::<bool>(), force_generic::<String>(), force_generic::<u64>()].iter().collect();
+    let b: String = [force_generic_2::<u64>(), force_generic_2::<bool>(), force_generic_2::<i8>(), force_generic_2::<bool>()].iter().collect();
+    println!("BOOLGATE_GENERIC {a} {b}");
+    let c: String = [replace_generic::<u64>(), replace_generic::<bool>(), replace_generic::<u32>(), replace_generic::<u64>()].iter().collect();
+    let d: String = [replace_generic_2::<bool>(), replace_generic_2::<u64>(), replace_generic_2::<String>(), replace_generic_2::<u64>()].iter().collect();
+    println!("SIG_GENERIC {c} {d}");
 }
 
 fn all(ctx: &str) {
     for (form, getter) in [("func", 0usize), ("arm", 1), ("closure", 2), ("fake", 3), ("unchecked_fake", 4), ("unchecked_target", 5), ("both_unchecked", 6), ("same_address", 7)] {
-        for t in FAMILY {
+        for (ti, t) in FAMILY.iter().enumerate() {
+            CUR.store(ti, Ordering::SeqCst);
             let mut row = String::new();
             for f in FAMILY {
                 let c = match getter {
@@ -80,15 +132,16 @@ fn all(ctx: &str) {
     }
     // null pointers, boolean gate
     let mut nulls = String::new(); let mut bools = String::new();
-    for t in FAMILY {
+    for (ti, t) in FAMILY.iter().enumerate() {
+        CUR.store(ti, Ordering::SeqCst);
         nulls.push(attempt((t.taddr)(), |inj| inj.when_called((t.target)()).will_execute_raw(unsafe { FuncPtr::new(std::ptr::null(), (t.tname)()) })));
         bools.push(attempt((t.taddr)(), |inj| inj.when_called((t.target)()).will_return_boolean(true)));
     }
     // the unchecked macros carry an empty signature: forcing a boolean on such a target must be refused as well
     let mut ub = String::new();
-    for t in FAMILY { ub.push(attempt((t.taddr)(), |inj| unsafe { inj.when_called_unchecked((t.unchecked_target)()).will_return_boolean(true) })); }
+    for (ti, t) in FAMILY.iter().enumerate() { CUR.store(ti, Ordering::SeqCst); ub.push(attempt((t.taddr)(), |inj| unsafe { inj.when_called_unchecked((t.unchecked_target)()).will_return_boolean(true) })); }
     let mut ub2 = String::new();
-    for t in FAMILY { ub2.push(attempt((t.taddr)(), |inj| inj.when_called((t.unchecked_target)()).will_return_boolean(true))); }
+    for (ti, t) in FAMILY.iter().enumerate() { CUR.store(ti, Ordering::SeqCst); ub2.push(attempt((t.taddr)(), |inj| inj.when_called((t.unchecked_target)()).will_return_boolean(true))); }
     println!("BOOLGATE_UNCHECKED{ctx} {ub}");
     println!("BOOLGATE_UNCHECKED_SAFEFORM{ctx} {ub2}");
     println!("NULLFAKE{ctx} {nulls}");
